@@ -150,6 +150,17 @@ def run(drv, case):
                     raise Violation('solve-wrong-answer', '%s: call %d of solve returns %r; the answer sequence is %r (flag raised at observation %s)' % (desc, i + 1, s, want, n))
             if not fired and seq != want:
                 raise Violation('incomplete-without-timeout', '%s: never fired, yet solve gives %r instead of %r' % (desc, seq, want))
+        # a driver call that has returned must not leave its timer running: it would fire during a later query that finishes well
+        # within its own limit.  If one is still armed, let it fire during a fresh run of the same query.
+        if m.timer is not None and m.timer.get('armed'):
+            tags.append('timer-left-running-by-a-finished-call')
+            q2 = drv.query([drv.term(t) for t in query[1]])
+            node2 = drv.base(q2, kb)
+            drv.stop_at(1)
+            again = drv.solve_all(node2)
+            drv.stop_at(-1)
+            if again != full:
+                raise Violation('leaked-timer', '%s: a driver call returned with its timer still running; when that timer fires during the next query, solve_all returns %r instead of %r' % (desc, again, full))
     except ScenarioEnd as e:
         raise Violation('driver-%s' % e.why[0], '%s: %s' % (desc, e.why[1][:200]))
     tags.append('timer-never-fires' if not fired else ('timer-fires-at-first-observation' if n == 0 else 'timer-fires-mid-search'))
